@@ -649,6 +649,27 @@ def order_taint(ctx: Ctx):  # noqa: C901, PLR0912
         n_sinks += 1
         if k:
             findings.append((f"lcm.input_processing.util.{fn}", "key order of the grids", k, r, r))
+    # values of the built-in hash(): salted per interpreter process for str / bytes, so nothing computed from them is
+    # reproducible across runs (expected count in lcm: zero; positive control in the fixture)
+    hashed = []
+    for name, fr in sorted(frames.items()):
+        for t in frame_terms(fr) + loop_terms(prog, fr):
+            for s in walk(t):
+                if s[0] == "call" and callee_name(s) == "builtins.hash":
+                    hashed.append((name.split("@")[0], s))
+    hctl = [s for _n, fr in fixture_frames(prog).items() for t in frame_terms(fr) for s in walk(t)
+            if s[0] == "call" and callee_name(s) == "builtins.hash"]
+    if not hctl:
+        ctx.undecided("ORD:positive-control:hash", "the scan no longer flags the fixture's use of hash()")
+    ctx.count("positive_controls_flagged", len(hctl))
+    hseen = set()
+    for q, s in hashed:
+        if q in hseen:
+            continue
+        hseen.add(q)
+        ctx.ob(f"ORD:{q.removeprefix('lcm.')}:hash()", False, prog.where(s),
+               f"{q} computes with hash(...): for strings the value differs from one interpreter process to the next "
+               "(PYTHONHASHSEED), so results derived from it are not reproducible for a fixed seed", lhs=show(s)[:120])
     ctx.count("order_sinks", n_sinks)
     # positive control: the fixture's two tainted productmap calls must be seen
     ctl = []
